@@ -195,7 +195,7 @@ def factory(key):
 def plan(ctx):
     jobs = []
     if ctx.thorough:
-        jobs.append((("from_periodic", "future", 5, 0, 1.5), 0))
+        jobs.append((("from_periodic", "future", 5, 0, 1.0), 0))
         jobs.append((("from_periodic", "future", 4, 0, 2.0), 1))
         jobs.append((("from_iterable", "future", 5, 3, 0.5), 0))
         jobs.append((("from_iterable", "future", 4, 4, 0.5), 1))
